@@ -20,9 +20,9 @@ from harness import project, tlc
 from harness.core import Check
 from harness.par import pmap
 
-KINDS = {"plain", "blank", "ind", "q", "b", "t3", "t4", "t5", "w3", "w4", "t3x", "s3", "sw3"}
+KINDS = {"plain", "blank", "ind", "q", "b", "t3", "t4", "t5", "w3", "w4", "t3x", "s3", "sw3", "s3i"}
 CONC = {"plain": 'wait... x = "str" # it\'s', "blank": "", "ind": "    indented", "q": "> not a quote", "b": "- not an item", "t3": "```",
-        "t4": "````", "t5": "`````", "w3": "~~~", "w4": "~~~~", "t3x": "```py", "s3": "  ```", "sw3": " ~~~"}
+        "t4": "````", "t5": "`````", "w3": "~~~", "w4": "~~~~", "t3x": "```py", "s3": "  ```", "sw3": " ~~~", "s3i": " ```"}
 BACK = {v: k for k, v in CONC.items()}
 PATHS = {"top": ("", ""), "bullet": ("- ", "  "), "quote": ("> ", "> "), "bullet>quote": ("- > ", "  > "), "quote>bullet": ("> - ", ">   "),
          "footnote": ("[^1]: ", "    ")}
@@ -49,7 +49,7 @@ def conc_block(blk, path, findent=0):
         p = first if j == 0 else cont
         out.append((p + l) if l else p.rstrip())
     text = "\n".join(out) + "\n"
-    if blk["fl"] == 0:
+    if blk["fl"] == 0 or (findent and path == "top"):
         text = "intro\n\n" + text      # not a uniformly indented document (that would be dedented on purpose: docstring convenience)
     if path == "footnote":
         text = "ref[^1]\n\n" + text
@@ -203,14 +203,16 @@ def run(tier: str) -> int:
     beh = sorted((r for r in res.reports if r and r[0] == "K"), key=json.dumps)
     chk.notes["model_blocks"] = len(beh)
     if tier == "quick":
-        beh = [b for k, b in enumerate(beh) if (k + chk.seed) % 4 == 0 or any(x in ("t3", "t4", "t5", "w3", "w4", "s3", "sw3") for x in b[1]["lines"])]
+        beh = [b for k, b in enumerate(beh) if (k + chk.seed) % 4 == 0 or any(x in ("t3", "t4", "t5", "w3", "w4", "s3", "sw3", "s3i") for x in b[1]["lines"])]
     # indented code blocks are only placed at the top level (after an intro paragraph)
     beh = [b for b in beh if b[1]["fl"] > 0 or b[2] == "top"]
-    jobs = [(i, b[1], b[2], i % 2) for i, b in enumerate(beh)]
+    # a block with an "s3i" line exists only 3 spaces to the right (fenced) or as an indented block
+    beh = [b for b in beh if not (b[1]["fl"] > 0 and "s3i" in b[1]["lines"] and b[2] not in ("top", "quote"))]      # after a list marker the extra spaces belong to the item
+    jobs = [(i, b[1], b[2], i % 2) + ((3,) if b[1]["fl"] > 0 and "s3i" in b[1]["lines"] else ()) for i, b in enumerate(beh)]
     # fenced blocks written 3 (and 1) spaces to the right: the parser removes that indent from the content, so a fence look-alike
     # that was harmless at 4+ columns becomes a closing-fence candidate
     lookalike = ("t3", "t4", "t5", "w3", "w4", "s3", "sw3", "t3x")
-    jobs += [(i, b[1], b[2], (i + fi) % 2, fi) for i, b in enumerate(beh) if b[1]["fl"] > 0 and b[2] in ("top", "quote")
+    jobs += [(i, b[1], b[2], (i + fi) % 2, fi) for i, b in enumerate(beh) if b[1]["fl"] > 0 and b[2] in ("top", "quote") and "s3i" not in b[1]["lines"]
              for fi in ((3, 1) if any(x in lookalike for x in b[1]["lines"]) else (3,) if i % 3 == 0 else ())]
     traces, metas = [], {}
     tid = 0
